@@ -76,9 +76,20 @@ impl<'a> Autocompletion<'a> {
         };
 
         if len > self.buffer.len() {
-            // if buffer is full with this autocompletion, there is not much sense in doing it
-            // since user will not be able to type anything else
-            // so just do nothing with it
+            // autocompletion doesn't fit as a whole, so keep only those
+            // first chars of it, that do fit. It still takes part in merging, so
+            // other autocompletions are not mistaken for the only one available
+            let mut len = self.buffer.len();
+            while !autocompletion.is_char_boundary(len) {
+                len -= 1;
+            }
+            self.partial = true;
+            // SAFETY: len is no longer than buffer len (and is less than autocompletion len)
+            // and these two buffers do not overlap since mutable reference to buffer is exclusive
+            unsafe {
+                utils::copy_nonoverlapping(autocompletion.as_bytes(), self.buffer, len);
+            }
+            self.autocompleted = Some(len);
         } else {
             self.partial =
                 self.partial || len < autocompletion.len() || self.autocompleted.is_some();
